@@ -267,3 +267,47 @@ func TestDeviationBoundIsMonotone(t *testing.T) {
 		t.Errorf("unbounded exploration found %d log orders, want all 6 permutations", prev)
 	}
 }
+
+func TestChanLenSeesBothOrders(t *testing.T) {
+	// the answer of len(ch) depends on its order against a concurrent send, and what the task does next
+	// depends on the answer: both futures must be explored, with and without the state cache
+	var r string
+	got := outcomes(t, "chanlen", vx.Options{}, func(env *vx.Env) {
+		ch := vx.MakeChan[int](2, "ch")
+		r = ""
+		done := vx.NewEvent("d")
+		env.Go("sender", func() { vx.Send(ch, 1, ""); done.Set() })
+		if vx.Len(ch, "") == 0 {
+			r = "empty"
+		} else {
+			r = fmt.Sprint("got", vx.Recv(ch, ""))
+		}
+		done.Wait()
+	}, func(o *vx.Outcome) string { return r })
+	expect(t, got, "ok:empty", "ok:got1")
+}
+
+func TestTryLockCanBarge(t *testing.T) {
+	// a task blocked in Lock does not own the mutex when it is released: a TryLock arriving then may win
+	var log string
+	got := outcomes(t, "trylock", vx.Options{}, func(env *vx.Env) {
+		var mu vx.Mutex
+		log = ""
+		mu.Lock()
+		done := vx.NewCounter("d")
+		env.Go("waiter", func() { mu.Lock(); log += "W"; mu.Unlock(); done.Add(1) })
+		env.Go("barger", func() {
+			if mu.TryLock() {
+				log += "B"
+				mu.Unlock()
+			} else {
+				log += "b"
+			}
+			done.Add(1)
+		})
+		vx.Yield()
+		mu.Unlock()
+		done.WaitFor(2)
+	}, func(o *vx.Outcome) string { return log })
+	expect(t, got, "ok:BW", "ok:WB", "ok:Wb", "ok:bW")
+}
